@@ -169,12 +169,12 @@ def run(ctx):
         check_oracle(prog, outs + [0] * 64, "corpus-" + name)
 
     # -- syntactic stream
-    nS = 40000 if ctx.thorough else 4000
+    nS = 32000 if ctx.thorough else 4000
     progs = []
     for i in range(nS):
         prog = H.Gen(rng, max_depth=4, max_stmts=30).program()
         correspond(prog, "random")
-        if i < (20000 if ctx.thorough else 1700):
+        if i < (16000 if ctx.thorough else 1700):
             progs.append(prog)
         if len(res.samples) < 2 and i % 100 == 3:
             res.samples.append({"program": prog})
